@@ -35,7 +35,12 @@ bool Value::extract_values(std::vector<std::vector<uint8_t>>& values) {
     std::vector<uint8_t> vch;
     while (pc != s.end()) {
         if (!s.GetOp(pc, opcode, vch)) return false;
-        if (vch.size() == 0) return false; // we only allow push operations here
+        if (vch.size() == 0) {
+            // small numbers are pushed with OP_1..OP_16 / OP_1NEGATE / OP_0, which carry no push data: take their value
+            if (opcode >= OP_1 && opcode <= OP_16) vch.push_back((uint8_t)(opcode - OP_1 + 1));
+            else if (opcode == OP_1NEGATE) vch.push_back(0x81);
+            else if (opcode != OP_0) return false; // we only allow push operations here
+        }
         values.push_back(vch);
     }
     return true;
